@@ -542,6 +542,25 @@ func matchMsgs(msgs []pg.BMsg, exp []expMsg) (bool, string) {
 
 var xNames = []string{"", "a", "b"}
 
+// xLongNames renames a and b, in one history out of six, to names of 64 and more bytes that differ only
+// behind their 63rd byte (PostgreSQL would truncate identifiers there; names in this protocol are byte
+// strings, and two different ones are two names).
+func xLongNames(rng *core.Rng, h []xMsg) []xMsg {
+	if rng.Intn(6) != 0 {
+		return h
+	}
+	long := map[string]string{"a": strings.Repeat("n", 63) + "-first", "b": strings.Repeat("n", 63) + "-second-and-longer"}
+	for i := range h {
+		if l, ok := long[h[i].Name]; ok {
+			h[i].Name = l
+		}
+		if l, ok := long[h[i].Portal]; ok {
+			h[i].Portal = l
+		}
+	}
+	return h
+}
+
 // xProgFor builds a deterministic statement program; kind selects the outcome.
 // Every statement declares exactly two parameters (Binds always send two).
 // xCause: every third failing statement fails with an error that wraps a standard-library error
